@@ -38,6 +38,8 @@ def cases(tier):
             out.append({"name": "e2e_unmatched_%s_f%d%d" % (mm, p0, r0), "what": "e2e", "input_type": "UNMATCHED_INSTANCE", "matching_metric": mm, "shape": shp, "fix": [p0, r0]})
     for p0, r0 in itertools.product(range(3), repeat=2):
         out.append({"name": "e2e_matched_f%d%d" % (p0, r0), "what": "e2e", "input_type": "MATCHED_INSTANCE", "matching_metric": None, "shape": (4,), "fix": [p0, r0]})
+    # semantic input (instances approximated first) with a class id beyond one byte on the prediction side only
+    out.append({"name": "e2e_semantic_wide_labels", "what": "e2e", "input_type": "SEMANTIC", "matching_metric": "IOU", "shape": (3,), "fix": None, "dtype": "uint16", "wide": True})
     # per-instance evaluation (crop + kernels) of one matched instance both ways, on longer maps than the whole-pipeline runs
     N = 8 if tier == "quick" else 10
     for f in range(4):
@@ -92,20 +94,40 @@ def run_case(case):
     from ..twin import get_twin
     T = get_twin()
     shape = tuple(case["shape"])
-    pv, rv, base = e2e.sym_arrays(shape, 2, "uint8")
-    base += [pv[0] == case["fix"][0], rv[0] == case["fix"][1]]
+    dt = case.get("dtype", "uint8")
+    semantic = case["input_type"] == "SEMANTIC"
     thr = z3.Real("thr_m")
+    if case.get("wide"):
+        from ..sym import declare_bounds
+        n_ = 1
+        for d_ in shape:
+            n_ *= d_
+        pv = [z3.Int("p%d" % i) for i in range(n_)]
+        rv = [z3.Int("r%d" % i) for i in range(n_)]
+        base = []
+        for v in pv:
+            declare_bounds(v, 0, 256)
+            base.append(z3.Or(v == 0, v == 1, v == 256))
+        for v in rv:
+            declare_bounds(v, 0, 1)
+            base.append(z3.And(v >= 0, v <= 1))
+    else:
+        pv, rv, base = e2e.sym_arrays(shape, 2, "uint8")
+        base += [pv[0] == case["fix"][0], rv[0] == case["fix"][1]]
     base += [thr >= 0, thr <= 1]
     cfg = {"input_type": case["input_type"], "matching_metric": case["matching_metric"], "decision_metric": None, "metrics": METRICS}
+    if semantic:
+        cfg["backend"] = None
+        base.append(thr > z3.Q(1, 2))       # IoU above 1/2: the matching is unique whatever the instances are
 
     def decode(m):
-        return {"what": "e2e", "cfg": cfg, "shape": list(shape), "pred": [jsonable(v, m) for v in pv], "ref": [jsonable(v, m) for v in rv], "thr_m": jsonable(thr, m)}
+        return {"what": "e2e", "cfg": cfg, "shape": list(shape), "dtype": dt, "pred": [jsonable(v, m) for v in pv], "ref": [jsonable(v, m) for v in rv], "thr_m": jsonable(thr, m)}
     h = H(PROP, case["name"], decode, replay_kind="swap", max_witnesses=40)
 
     def body():
         try:
-            a = e2e.run_twin(T, e2e.build_evaluator(T, cfg, SNum(thr), None), SArr(list(pv), "uint8", shape).protect("caller prediction"), SArr(list(rv), "uint8", shape).protect("caller reference"), METRICS)
-            b = e2e.run_twin(T, e2e.build_evaluator(T, cfg, SNum(thr), None), SArr(list(rv), "uint8", shape), SArr(list(pv), "uint8", shape), METRICS)
+            a = e2e.run_twin(T, e2e.build_evaluator(T, cfg, SNum(thr), None), SArr(list(pv), dt, shape).protect("caller prediction"), SArr(list(rv), dt, shape).protect("caller reference"), METRICS)
+            b = e2e.run_twin(T, e2e.build_evaluator(T, cfg, SNum(thr), None), SArr(list(rv), dt, shape), SArr(list(pv), dt, shape), METRICS)
         except EngineSignal:
             raise
         except WriteToProtected as e:
@@ -114,9 +136,10 @@ def run_case(case):
         except Exception as e:
             h.fail("evaluation_completes", detail="%s: %s" % (type(e).__name__, str(e)[:120]))
             return
-        C = e2e.Counts(pv, rv, 2, 2)
-        if e2e.oracle(C, cfg, SNum(thr), None) is None:
-            return
+        if not semantic:
+            C = e2e.Counts(pv, rv, 2, 2)
+            if e2e.oracle(C, cfg, SNum(thr), None) is None:
+                return
         h.ok("tp_equal", a["tp"] == b["tp"], detail={"forward": a["tp"], "exchanged": b["tp"]})
         h.ok("fp_fn_exchanged", a["fp"] == b["fn"] and a["fn"] == b["fp"], detail={"forward": [a["fp"], a["fn"]], "exchanged": [b["fp"], b["fn"]]})
         for m in ("IOU", "DSC"):
@@ -202,8 +225,8 @@ def real_swap(case, mode, expect):
     cfg = dict(case["cfg"])
     cfg["matching_threshold"] = fl(case["thr_m"])
     shape = tuple(case["shape"])
-    pred = np.array(case["pred"], dtype=np.uint8).reshape(shape)
-    ref = np.array(case["ref"], dtype=np.uint8).reshape(shape)
+    pred = np.array(case["pred"], dtype=case.get("dtype", "uint8")).reshape(shape)
+    ref = np.array(case["ref"], dtype=case.get("dtype", "uint8")).reshape(shape)
     want = RC.reference_pipeline(pred, ref, cfg)
     if not want["unique"]:
         return {"match": True, "violates": False, "reason": None, "observed": "tie"}
